@@ -39,6 +39,17 @@ TrDeclare ==
                                               ELSE [kind |-> "int", lo |-> Ev.lo, hi |-> Ev.hi])
             /\ verdict' = "ok"
 
+TrDeclareArray ==
+    /\ Ev.ev = "array"
+    /\ LET n == Cells(Ev.shape) IN
+       IF Ev.got_shape # Ev.shape THEN Reject("declare:array-has-another-shape-than-requested")
+       ELSE IF Len(Ev.ids) # n \/ \E i \in 1 .. n : Ev.ids[i] # Len(decl) + i - 1
+            THEN Reject("declare:array-cells-are-not-numbered-consecutively-in-row-major-order")
+       ELSE IF Ev.declared # Len(decl) + n THEN Reject("declare:array-call-declared-another-number-of-variables")
+       ELSE /\ DeclareArray(IF Ev.kind = "bool" THEN [kind |-> "bool", lo |-> 0, hi |-> 0]
+                                                  ELSE [kind |-> "int", lo |-> Ev.lo, hi |-> Ev.hi], Ev.shape)
+            /\ verdict' = "ok"
+
 TrEnsure ==
     /\ Ev.ev = "ensure"
     /\ LET posted == Posted(Ev.x) IN
@@ -78,7 +89,7 @@ TrConfig == Ev.ev = "config" /\ UNCHANGED vars /\ verdict' = "ok"
 TraceNext ==
     /\ verdict = "ok" /\ k < Len(Traces[t].events)
     /\ k' = k + 1 /\ t' = t
-    /\ (TrDeclare \/ TrEnsure \/ TrAddKey \/ TrFind \/ TrSolve \/ TrConfig)
+    /\ (TrDeclare \/ TrDeclareArray \/ TrEnsure \/ TrAddKey \/ TrFind \/ TrSolve \/ TrConfig)
 
 Terminal == verdict # "ok" \/ k = Len(Traces[t].events)
 
